@@ -55,6 +55,11 @@ def gen_spec(rng):
             spec["transforms"] = _pick(rng, ["in_only", "out_only"])
         if rng.random() < 0.2:
             spec["caps"] = "custom"
+        spec["layout"] = _pick(rng, ["c", "c", "f", "view"])
+        if rng.random() < 0.1:
+            # tensors with more than 2**14 elements (fast paths for big data)
+            spec["n"] = 3
+            spec["chi"] = _pick(rng, [32, 40, 64])
     else:
         spec = {"kind": "ptt", "coupling": _pick(rng, ["z", "x", "y", "zx"]),
                 "steps": rng.randrange(2, 7), "dkmax": _pick(rng, [None, 2]),
